@@ -115,10 +115,26 @@ type c03ChainRecipe struct {
 	Props   int    `json:"props"`   // up to this many new proposals per round and node
 	PauseAt int    `json:"pauseAt"` // before this round the network stalls for 6 minutes (staged results expire); -1: never
 	Round   int    `json:"round"`   // the round this line is about (a replay re-runs the chain up to it)
+	// off-chain config of every instance (0: the default); reports are split by batch size, report gas limit and upkeep id
+	Batch    int    `json:"batch"`
+	GasLimit uint32 `json:"gasLimit"`
+	// Split: log upkeeps with several logs whose payloads reach two groups of >= f+1 nodes on DIFFERENT check blocks
+	// (split vote: both variants of every log reach the quorum)
+	Split bool `json:"split"`
+	// SameUpkeep: that many logs of ONE upkeep arrive before the first round (one report each, whatever the batch size)
+	SameUpkeep int `json:"sameUpkeep"`
+}
+
+// c03Cfg is the effective report configuration (after ensureMinimumDefaults), for the model of Reports.
+type c03Cfg struct {
+	Batch    int    `json:"batch"`
+	GasLimit uint32 `json:"gasLimit"`
+	Overhead uint32 `json:"overhead"`
 }
 
 type c03RoundInput struct {
 	Kind string `json:"kind"` // "round"
+	Cfg  c03Cfg `json:"cfg"`
 	c03ChainRecipe
 	X *JRound `json:"x,omitempty"`
 }
@@ -177,7 +193,8 @@ func c03RunChain(t *testing.T, rc c03ChainRecipe, em *Emitter, emit func(round i
 	pipe := &c03Pipeline{byWid: map[string]ocr2keepers.CheckResult{}}
 	nodes := make([]*Node, n)
 	for i := range nodes {
-		nodes[i] = NewNode(t, NodeOpts{N: n, F: f, Digest: digest})
+		nodes[i] = NewNode(t, NodeOpts{N: n, F: f, Digest: digest, OracleID: i,
+			OffchainConfig: []byte(fmt.Sprintf(`{"maxUpkeepBatchSize":%d,"gasLimitPerReport":%d}`, rc.Batch, rc.GasLimit))})
 		nodes[i].Run.mu.Lock()
 		nodes[i].Run.fn = pipe.check
 		nodes[i].Run.mu.Unlock()
@@ -225,6 +242,40 @@ func c03RunChain(t *testing.T, rc c03ChainRecipe, em *Emitter, emit func(round i
 			}
 		}
 	}
+	// several logs of one upkeep, checked on block X by one half of the nodes and on block Y by the other half
+	feedSplit := func() {
+		uid := genUpkeepID(r, true)
+		bx, by := height-1, height
+		groups := r.Perm(n)
+		for l := r.Range(2, 3); l > 0; l-- {
+			res := genResult(r, uid, bx)
+			res.Trigger.BlockHash = hashAt(bx)
+			pipe.add(res)
+			for gi, o := range groups {
+				p := payloadOf(res)
+				if gi >= (n+1)/2 {
+					p.Trigger.BlockNumber, p.Trigger.BlockHash = ocr2keepers.BlockNumber(by), hashAt(by)
+				}
+				nodes[o].Logs.mu.Lock()
+				nodes[o].Logs.payloads = append(nodes[o].Logs.payloads, p)
+				nodes[o].Logs.mu.Unlock()
+			}
+		}
+		em.Hit("split-vote-upkeeps")
+	}
+	feedSame := func(k int) {
+		uid := genUpkeepID(r, true)
+		for ; k > 0; k-- {
+			res := genResult(r, uid, height)
+			res.Trigger.BlockHash = hashAt(height)
+			pipe.add(res)
+			for _, nd := range nodes {
+				nd.Logs.mu.Lock()
+				nd.Logs.payloads = append(nd.Logs.payloads, payloadOf(res))
+				nd.Logs.mu.Unlock()
+			}
+		}
+	}
 	condCap := map[int]int{4: 20, 7: 4, 10: 2}[n] // OfInt: round(0.98*20)=20, round(float32(0.9)*4)=4 (but *5 gives 4), round(0.81*2)=2
 	seq := uint64(r.Range(1, 500))
 	var prev *ocr2keepersv3.AutomationOutcome
@@ -236,14 +287,18 @@ func c03RunChain(t *testing.T, rc c03ChainRecipe, em *Emitter, emit func(round i
 	}
 	var pend *pending
 	feed(rc.Burst)
+	feedSame(rc.SameUpkeep)
 	rounds := rc.Rounds
 	for k := 0; k <= rounds; k++ { // one extra pass: only to see whether the last outcome is decodable
 		last := k == rounds
 		if k == rc.PauseAt {
-			time.Sleep(6*time.Minute + 137*time.Millisecond)
+			time.Sleep(6*time.Minute + 130*time.Millisecond)
 		}
 		if !last {
 			feed(r.Range(0, rc.PerRound))
+			if rc.Split && r.Chance(45) {
+				feedSplit()
+			}
 			// proposals: recovery payloads and sampled conditional upkeeps; the same work is seen by several nodes
 			for _, nd := range nodes {
 				nd.Getter.mu.Lock()
@@ -291,7 +346,7 @@ func c03RunChain(t *testing.T, rc c03ChainRecipe, em *Emitter, emit func(round i
 				}
 				nd.Blocks.Publish(h)
 			}
-			time.Sleep(time.Duration(r.Range(1137, 3337)) * time.Millisecond)
+			time.Sleep(time.Duration(r.Range(114, 334)) * 10 * time.Millisecond) // multiples of 10 ms: the chain stays 7 ms off the 1 s grids
 			synctest.Wait()
 		}
 		// ---- Observation on every node
@@ -474,6 +529,16 @@ func c03ChainGen(r *Rng, i int) c03ChainRecipe {
 	if rc.N == 4 && r.Chance(20) { // 6 minutes of virtual time cost ~0.5 s of real time per node
 		rc.PauseAt = r.Range(3, 20)
 	}
+	// report configuration: batch sizes 1…20 (0 = default 1), gas limits that split reports of cheap and of expensive upkeeps
+	rc.Batch = []int{0, 1, 2, 3, 5, 10, 20}[r.Intn(7)]
+	if i%2 == 1 {
+		rc.Batch = r.Range(2, 20)
+	}
+	rc.GasLimit = []uint32{0, 0, 3_000_000, 8_000_000, 20_000_000}[r.Intn(5)]
+	rc.Split = i%5 != 2 && r.Chance(70)
+	if i%5 == 3 {
+		rc.SameUpkeep = r.Range(20, 110)
+	}
 	return rc
 }
 
@@ -499,7 +564,14 @@ func c03RunAndEmitChain(t *testing.T, em *Emitter, src string, rc c03ChainRecipe
 		one.Round = l.round
 		x := l.x
 		compactRound(&x, &l.impl)
-		em.Emit(src, c03RoundInput{Kind: "round", c03ChainRecipe: one, X: &x}, l.impl)
+		cfg := c03Cfg{Batch: rc.Batch, GasLimit: rc.GasLimit, Overhead: 300_000} // config.ensureMinimumDefaults
+		if cfg.Batch <= 0 {
+			cfg.Batch = 1
+		}
+		if cfg.GasLimit == 0 {
+			cfg.GasLimit = 5_300_000
+		}
+		em.Emit(src, c03RoundInput{Kind: "round", Cfg: cfg, c03ChainRecipe: one, X: &x}, l.impl)
 		em.Hit("kind=round")
 	}
 }
@@ -563,5 +635,11 @@ func c03ChainEdge() []c03ChainRecipe {
 		{Seed: 2, N: 4, Rounds: 8, Burst: 100, PerRound: 2, Props: 1, PauseAt: -1, Round: -1},  // exactly the caps
 		{Seed: 3, N: 4, Rounds: 8, Burst: 140, Heavy: true, PerRound: 3, Props: 2, PauseAt: 4, Round: -1},
 		{Seed: 4, N: 7, Rounds: 25, Burst: 10, PerRound: 4, Props: 14, PauseAt: -1, Round: -1}, // history fills: 20 rounds
+		// split votes on several logs of one upkeep, batches of 10
+		{Seed: 5, N: 4, Rounds: 8, Burst: 5, PerRound: 3, Props: 1, PauseAt: -1, Round: -1, Batch: 10, Split: true},
+		{Seed: 6, N: 7, Rounds: 8, Burst: 5, PerRound: 3, Props: 1, PauseAt: -1, Round: -1, Batch: 4, GasLimit: 3_000_000, Split: true},
+		// 100 logs of ONE upkeep with batch size 20: one report each
+		{Seed: 7, N: 4, Rounds: 5, SameUpkeep: 100, PerRound: 1, PauseAt: -1, Round: -1, Batch: 20},
+		{Seed: 8, N: 4, Rounds: 5, Burst: 120, PerRound: 1, PauseAt: -1, Round: -1, Batch: 10, GasLimit: 6_000_000},
 	}
 }
